@@ -46,6 +46,16 @@ def ls2p(model):
         if _inside(node, loop):
             searches[id(node)] = (node, lo, hi, d, res, sst)
     ss = sorted(searches.values(), key=lambda x: (x[0].lineno, x[0].col_offset))
+    if len(ss) == 0 and any(isinstance(c, ast.Call) and model.resolve_call(c) and model.resolve_call(c)[0] == 'func'
+                            and model.resolve_call(c)[1].mod.short == 'parser' and model.resolve_call(c)[1].outer is None
+                            and model.resolve_call(c)[1].cls is not None
+                            and any(isinstance(x, (ast.For, ast.While)) or (isinstance(x, ast.Call) and getattr(x.func, 'id', '') == 'next')
+                                    for x in ast.walk(model.resolve_call(c)[1].node))
+                            for c in ast.walk(loop)):
+        # the searches live in a helper method: the partition argument below needs them in the loop
+        r.undec(loop, 'the BEGIN / END searches of the skip loop are made by a helper function')
+        r.instances += 5
+        return r
     if len(ss) != 2:
         r.fail(loop, 'expected the BEGIN and the END search in the skip loop, found %d searches '
                'over a range' % len(ss))
